@@ -266,6 +266,11 @@ func (t *Ty) isComplexTy() bool {
 }
 
 func genC11(r *rng, n int) {
+	genC11Thrift(r.fork(), n)
+	genC11Proto(r.fork(), n/2)
+}
+
+func genC11Thrift(r *rng, n int) {
 	nv := n / 6
 	if nv < 4 {
 		nv = 4
